@@ -5,6 +5,7 @@ import Fdo.Drv.Prim
 import Fdo.Drv.Kex
 import Fdo.Drv.Voucher
 import Fdo.Drv.Chunk
+import Fdo.Drv.Rounds
 /-
 Line-protocol driver: one operation per input line, one reply per output line.
 Imports model modules only (no proofs, no Mathlib) so that it links as a `lean_exe`.
@@ -20,6 +21,7 @@ def handlers : List (String × (String → List String → Option String)) := [
   ("kex.", Drv.Kex.handle),
   ("voucher.", Drv.Voucher.handle),
   ("chunk.", Drv.Chunk.handle),
+  ("rounds.", Drv.Rounds.handle),
 ]
 
 def dispatch (line : String) : String :=
